@@ -149,3 +149,25 @@ def _js(o):
     if isinstance(o, tuple):
         return list(o)
     return repr(o)
+
+
+def spread(items, key, limit):
+    """At most `limit` of `items`, taken round-robin over the groups given by `key` (so that one numerous kind of
+    difference - a known deviation, say - cannot crowd every other kind out of what is judged)."""
+    groups = {}
+    for it in items:
+        groups.setdefault(key(it), []).append(it)
+    out = []
+    lists = [groups[k] for k in sorted(groups, key=repr)]
+    i = 0
+    while len(out) < limit and lists:
+        nxt = []
+        for g in lists:
+            if i < len(g):
+                out.append(g[i])
+                if len(out) >= limit:
+                    break
+                nxt.append(g)
+        lists = nxt
+        i += 1
+    return out
